@@ -46,12 +46,13 @@ type Keys struct {
 func WaitAvailableKeys(keys *Keys, cfg *inputrc.Config) error {
 	keys.cfg = cfg
 
-	if len(keys.buf) > 0 && !keys.mustWait {
+	// The macro engine might have fed some keys
+	if len(keys.macroKeys) > 0 {
+		keys.flushFed()
 		return nil
 	}
 
-	// The macro engine might have fed some keys
-	if len(keys.macroKeys) > 0 {
+	if len(keys.buf) > 0 && !keys.mustWait {
 		return nil
 	}
 
@@ -148,6 +149,8 @@ func (k *Keys) convertInput(keyBuf []byte) []byte {
 // PopKey is used to pop a key off the key stack without
 // yet marking this key as having matched a bind command.
 func PopKey(keys *Keys) (key byte, empty bool) {
+	keys.flushFed()
+
 	switch {
 	case len(keys.buf) > 0:
 		key = keys.buf[0]
@@ -164,6 +167,8 @@ func PopKey(keys *Keys) (key byte, empty bool) {
 
 // PeekKey returns the first key in the stack, without removing it.
 func PeekKey(keys *Keys) (key byte, empty bool) {
+	keys.flushFed()
+
 	switch {
 	case len(keys.buf) > 0:
 		key = keys.buf[0]
@@ -214,6 +219,8 @@ func MatchedPrefix(keys *Keys, prefix ...byte) {
 // it as having matched a bind command. This is used, for example, when the
 // escape has been handled specially as a Vim escape.
 func PopForce(keys *Keys) (key byte, empty bool) {
+	keys.flushFed()
+
 	switch {
 	case len(keys.buf) > 0:
 		key = keys.buf[0]
@@ -263,6 +270,8 @@ func (k *Keys) ReadKey() (key rune, isAbort bool) {
 		k.reading = false
 		k.mutex.RUnlock()
 	}()
+
+	k.flushFed()
 
 	switch {
 	case len(k.macroKeys) > 0:
@@ -325,6 +334,8 @@ func (k *Keys) ReadKey() (key rune, isAbort bool) {
 // then select-inside, but the quote won't match a command and will be passed
 // to select-inside. This function Pop() will thus return the quote.)
 func (k *Keys) Pop() (key byte, empty bool) {
+	k.flushFed()
+
 	switch {
 	case len(k.buf) > 0:
 		key = k.buf[0]
@@ -344,6 +355,22 @@ func (k *Keys) Pop() (key byte, empty bool) {
 // Caller returns the keys that have matched the command currently being ran.
 func (k *Keys) Caller() (keys []rune) {
 	return k.matched
+}
+
+// flushFed puts the keys fed by commands (macros, keys fed back to be dispatched
+// again) in front of the keys read on the terminal and not used yet: they are the
+// next keys to be used, before anything typed ahead. Keys given back by the
+// dispatcher are put in front of the same stack, so their order is kept as well.
+func (k *Keys) flushFed() {
+	k.mutex.Lock()
+	defer k.mutex.Unlock()
+
+	if len(k.macroKeys) == 0 {
+		return
+	}
+
+	k.buf = append([]byte(string(k.macroKeys)), k.buf...)
+	k.macroKeys = nil
 }
 
 // Feed can be used to directly add keys to the stack.
